@@ -95,6 +95,20 @@ def gen_rare_events(ctx, count, gammas):
     return out
 
 
+def gen_large(ctx, count):
+    """one sweep on tens of thousands of states (many full batches; a kernel that changes method with the size of the problem)"""
+    out = []
+    for _ in range(count):
+        sub = ctx.rng.randrange(10 ** 9)
+        rng = random.Random(sub)
+        nS = (30000 if ctx.tier == "quick" else rng.choice([30000, 45000, 66000])) + rng.randrange(1, 300)
+        spec = mdpgen.gen_mdp(rng, family="tab", nS=nS, nA=2, nE=2, denom=4, rscale=0, rmax=8, dims=(2, 1, 1), init="zero")
+        g = rng.choice([F(1, 2), F(3, 4), F(1)])
+        V = [F(rng.randint(-16, 16), 4) for _ in range(nS)]
+        out.append({"seed": sub, "spec": spec, "g": str(g), "g0": str(g), "V": [str(x) for x in V], "mb": rng.choice([1024, 4096, 100000]), "bits": 16, "large": True})
+    return out
+
+
 def gen_single_precision(ctx, count):
     """jax_double_precision=False in a process where 64-bit mode was never enabled: value vectors with a LARGE common level and
     small gaps between action values (1024 + j/64: 16 bits, exact in float32 through one backup at gamma = 1/2)"""
@@ -225,12 +239,19 @@ def run(ctx, build, gammas=None, devices_list=None):
             for i in failing:
                 corr.append({"what": "model and implementation disagree on one sweep", "seed": sub[idx[i]]["seed"], "devices": dv,
                              "input": {"case": sub[idx[i]], "devices": dv}})
+    lg = gen_large(ctx, 1 if ctx.tier == "quick" else 4)
+    for dv in (devices_list[:1] if ctx.tier == "quick" else devices_list):
+        for c, r in zip(lg, core.run_workers(ctx, [job_of(c) for c in lg], devices=dv)):
+            total += 1
+            why = oracle(c, r)
+            if why:
+                viols.append({"key": f"sweep-large:{c['seed']}:{dv}", "what": f"{c['spec']['nS']} states: {why}", "input": {"case": c, "devices": dv}})
     nontriv = {solverun.case_id([c["spec"]["nxt"], c["spec"]["rew"], c["spec"]["prb"], c["V"], c["g"]]) for c in cs if solverun.nontrivial_mdp(c["spec"])}
     fam = {}
     for c in cs:
         fam[c["spec"]["family"]] = fam.get(c["spec"]["family"], 0) + 1
     cov = {
-        "evaluations": total,
+        "evaluations": total, "sweeps_on_tens_of_thousands_of_states": [c["spec"]["nS"] for c in lg],
         "distinct_nontrivial": len(nontriv),
         "rule": "seeded generated MDPs (families tab/dim/ties/absorb/unreach/det/chain, 1-3 dimensional state/action/event vectors, "
                 "probabilities as scalars or 1-element arrays) x injected value vector x gamma x max_batch_size in the exact-dyadic regime "
